@@ -143,6 +143,23 @@ def correspondence(ctx):
         impl = run_impl(ctx, cases, release)
         evals += len(cases)
         tag = "release" if release else "debug"
+        # a time-based verdict is re-measured with the machine to itself (the sharded run competes for the cores):
+        # only a case that is slow three times in a row is reported
+        slow = [(k, kind, x) for k, kind, x in cases if impl.get(k, "").startswith("timeout") or (judge(k, kind, x, impl.get(k, "<no output>"), None)[0] or "").startswith(("took ", "no result within"))]
+        for attempt in range(2):
+            if not slow:
+                break
+            again = {}
+            for k, kind, x in slow[:40]:
+                again.update(run_impl(ctx, [(k, kind, x)], release))
+            still = []
+            for k, kind, x in slow[:40]:
+                v = judge(k, kind, x, again.get(k, "<no output>"), None)[0] or ""
+                if v.startswith(("took ", "no result within")):
+                    still.append((k, kind, x))
+                else:
+                    impl[k] = again.get(k, impl.get(k))
+            slow = still
         for k, kind, x in cases:
             out = impl.get(k, "<no output>")
             cls = out.split(" largest")[0]
